@@ -14,7 +14,9 @@ func def(prop string, gen func(tier string, seed uint64, idx int) interface{}, r
 func init() {
 	world.Register(def("C01", genRouting("C01"), ruleRouting, "exploration", 12000, 600000))
 	world.Register(def("C07", genSuback("C07"), "script = 1-2 subscriber clients sending SUBSCRIBE/UNSUBSCRIBE with 1-12 filters (valid, invalid such as a/#/b or a+, repeated, overlapping, never subscribed), requested QoS 0-2 and out of range (3, 0x7f, 0x80, 0xff), server maximum QoS 0-2, and a publisher probing the filters before, between and after with barriers in between. Oracle: exactly one SUBACK/UNSUBACK per request in request order with one code per filter = min(requested, maximum) or 0x80 for an invalid filter (or the broker closes the connection); effect judged by the routing oracle with the certain window starting at the SUBACK and ending at the UNSUBSCRIBE. Non-trivial = at least one delivery or more than one connection.", "exploration", 12000, 600000))
-	for _, p := range []string{"C02", "C17"} {
+	world.Register(def("C08", genRetained("C08"), "script = 1-2 publishers (and Server.Publish) sending retained / clearing (empty payload) / non-retained publishes at QoS 0-2 on up to 8 topics, in half of the runs with more than a ring size of unrelated traffic in between; 1-3 subscribers (and Server.Subscribe) issuing SUBSCRIBEs with literal and wildcard filters, repeated, before/after barriers or racing with the updates; server maximum QoS 0-2. Oracle: per SUBSCRIBE and topic, the set V of values that could be current in the request's window; exactly one retained copy per matching filter with payload in V, QoS min(stored, granted), when V holds only messages; none when nothing can be stored; retain flag 1 only right after a SUBACK. Non-trivial = at least one delivery or more than one connection.", "exploration", 12000, 600000))
+	world.Register(def("C02", genReceiver("C02"), "script (broker role) = a scripted publisher interleaving over 1-4 packet identifiers: PUBLISH QoS 1 with DUP repeats, PUBLISH QoS 2, DUP repeats before the PUBREL, PUBREL, repeated PUBREL, PUBREL for identifiers not in flight, pipelined or waiting for each ack, and more than two ring sizes of unrelated QoS 0 traffic in half of the runs; a witness subscribed to # at QoS 0-2. Oracle: ack stream (one PUBACK/PUBREC per PUBLISH, one PUBCOMP per PUBREL, same identifier, in order), hand-over count per application message between the certain and the possible number, no hand-over before the releasing PUBREL, byte-identical payload. The client role of this property is checked in the client world. Non-trivial = at least one delivery.", "exploration", 12000, 600000))
+	for _, p := range []string{"C17"} {
 		world.Register(def(p, genRouting(p), "routing profile (provisional)", "exploration", 12000, 600000))
 	}
 }
